@@ -290,10 +290,14 @@ def cvt_archives(case):
             cents = np.array([[off * (k + 1) + s * asp[k] * (r.randrange(-4, 5) / 4) for k in range(nd)] for _ in range(n)])
         cents = cents.astype(NP[dt])
     out = {}
+    keep = cents.copy()
     for name, kw in [("kd_tree", {}), ("brute", {"use_kd_tree": False}),        # k-D tree: the documented default
                      ("chunked", {"use_kd_tree": False, "chunk_size": 3})]:
         out[name] = CVTArchive(solution_dim=1, cells=len(cents), ranges=ranges, custom_centroids=cents, dtype=NP[dt], **kw)
-    return cents, out
+    # the caller re-uses its array afterwards (archives own their centroids: the oracle reads archive.centroids)
+    cents *= -1
+    cents[...] = cents[::-1].copy()
+    return keep, out
 
 
 def run_cvt(case, drv):
@@ -561,7 +565,43 @@ def run_prox(case, drv):
     return None
 
 
-RUNNERS = {"grid": run_grid, "ravel": run_ravel, "cvt": run_cvt, "cvt_overflow": run_cvt_overflow, "extreme": run_extreme, "sb": run_sb,
+def gen_prox_growth(rng):
+    return {"kind": "prox_growth", "nd": rng.choice([1, 2, 3]), "dtype": rng.choice(["f64", "f32"]),
+            "top": rng.choice([70, 140, 270]), "batch": rng.choice([1, 1, 2, 3]), "seed": rng.randrange(10**6), "ops": [0]}
+
+
+def run_prox_growth(case, drv):
+    """the archive grows one (or a few) entries at a time through every size up to `top` -- past every power of two
+    -- and is queried at each size: a stored entry at minimum distance (dyadic coordinates: float arithmetic exact)"""
+    import random
+    from ribs.archives import ProximityArchive
+    del drv
+    dt, nd = case["dtype"], case["nd"]
+    r = random.Random(case["seed"])
+    a = ProximityArchive(solution_dim=1, measure_dim=nd, k_neighbors=1, novelty_threshold=0.0, dtype=NP[dt])
+    side = 64
+    cells = r.sample(range(side**nd), case["top"])
+    pts = [[(c // side**k % side) / 4.0 - 8 for k in range(nd)] for c in cells]
+    stored = []
+    while len(stored) < len(pts):
+        chunk = pts[len(stored):len(stored) + case["batch"]]
+        a.add(np.zeros((len(chunk), 1)), np.zeros(len(chunk)), np.array(chunk, dtype=NP[dt]))
+        stored += chunk
+        if len(a) != len(stored):
+            return Failure("oracle", f"[C03] ProximityArchive with novelty_threshold 0: {len(a)} entries after {len(stored)} adds")
+        qs = [[r.randrange(-40, 40) / 4.0 for _ in range(nd)] for _ in range(4)] + [stored[-1], stored[0]]
+        idx = [int(i) for i in a.index_of(np.array(qs, dtype=NP[dt]))]
+        S = np.array(stored)
+        for p, i in zip(qs, idx):
+            d2 = ((S - np.array(p))**2).sum(axis=1)
+            if not 0 <= i < len(stored) or d2[i] != d2.min():
+                return Failure("oracle", f"[C03] ProximityArchive with {len(stored)} entries: {p} mapped to entry {i} "
+                               f"(squared distance {float(d2[i]) if 0 <= i < len(stored) else None}), a stored entry is at "
+                               f"{float(d2.min())}")
+    return None
+
+
+RUNNERS = {"prox_growth": run_prox_growth, "grid": run_grid, "ravel": run_ravel, "cvt": run_cvt, "cvt_overflow": run_cvt_overflow, "extreme": run_extreme, "sb": run_sb,
            "prox": run_prox}
 
 
@@ -602,6 +642,7 @@ def run(ctx):
     ctx.explore("cvt", gen_cvt, run_case, ctx.n(80, 6000), nontrivial=nontrivial, time_budget=b)
     ctx.explore("sb", gen_sb, run_case, ctx.n(100, 8000), nontrivial=nontrivial, time_budget=b)
     ctx.explore("prox", gen_prox, run_case, ctx.n(80, 6000), nontrivial=nontrivial, time_budget=b)
+    ctx.explore("prox-growth", gen_prox_growth, run_case, ctx.n(4, 200), nontrivial=nontrivial, time_budget=b)
     ctx.explore("cvt-overflow", gen_cvt_overflow, run_case, ctx.n(4, 40), nontrivial=nontrivial, time_budget=b)
     ctx.explore("extreme-magnitudes", gen_extreme, run_case, ctx.n(9, 60), nontrivial=nontrivial, time_budget=b)
     ctx.extra["points_checked"] = ctx.dist.copy()
